@@ -100,6 +100,10 @@ FIXED = {
     "sMZgate": (lambda: ops.sMZgate(0.3, 0.2), 2),
     "MeasureX": (lambda: ops.MeasureHomodyne(0.0), 1),
     "MeasureP(select)": (lambda: ops.MeasureHomodyne(PI / 2, select=0.3), 1),
+    "MeasureX(select=0)": (lambda: ops.MeasureHomodyne(0.0, select=0.0), 1),
+    "MeasureHD(select=0)": (lambda: ops.MeasureHeterodyne(select=0j), 1),
+    "MeasureFock(select=00)": (lambda: ops.MeasureFock(select=[0, 0]), 2),
+    "MeasureFock(dark=0)": (lambda: ops.MeasureFock(dark_counts=[0, 0]), 2),
     "MeasureHD": (lambda: ops.MeasureHeterodyne(), 1),
     "MeasureHD(select)": (lambda: ops.MeasureHeterodyne(select=0.2 - 0.1j), 1),
     "MeasureFock": (lambda: ops.MeasureFock(), 2),
